@@ -193,6 +193,10 @@ func (cx *Ctx) blockUnconditional(b *ssa.BasicBlock, val ssa.Value, depth int) (
 
 func checkC02(cx *Ctx, r *Report) {
 	w, fx := cx.W, cx.Fx
+	// storage is asked with the request's context (which carries the issuer in effect)
+	cx.checkStorageContext(r)
+	// the registered locations are used as published: module code does not edit decoded metadata (shared with C16)
+	cx.checkDecodedMetadataUntouched(r)
 	r.Clauses = []string{
 		"provenance of every delivery address: at the SSO endpoint Response.AcsUrl / ProtocolBinding, the values persisted with CreateAuthRequest, the Destination of error replies and the form action / redirect target come only from Location / Binding of an AssertionConsumerService entry of the provider returned by GetEntityByID (or stay empty); at the callback only from GetAccessConsumerServiceURL() / GetBindingType() of the request returned by AuthRequestByID; at logout only from the provider's SingleLogoutService locations. No form value, header or field of the protocol message reaches them",
 		"same pair persisted and used: the two values given to CreateAuthRequest are the Response fields the selection's two results were stored to; sendBackResponse posts to / redirects to exactly Response.AcsUrl, with the form under ProtocolBinding == HTTP-POST and the redirect under == HTTP-Redirect",
